@@ -218,6 +218,11 @@ def compose_diff(ctx, rep):
         out.append(("v*v*f, v scalar", P(P(vs, vs), f), vs, ()))
         out.append(("sin(v)/(1 + v*v)", D(cm["Sin"](vs), S(one, P(vs, vs))), vs, ()))
         out.append(("f*f   (independent of v)", P(f, f), vs, ()))
+        # a variable that labels a bare coefficient: the coefficient elsewhere in F is still independent of it
+        vb = variable(T.symbolic("V", ()), f, label())
+        out.append(("f*f*v, v = variable(f)", P(P(f, f), vb), vb, ()))
+        vu = variable(T.symbolic("V", (2,)), u, label())
+        out.append(("u[i]*v[i], v = variable(u)", um.m_index_sum(P(idx(u, i), idx(vu, i)), MI((i,))), vu, (2,)))
         # vector variable
         L2 = label()
         vv = variable(T.symbolic("V", (2,)), u, L2)
